@@ -219,7 +219,7 @@ def check(ctx):
     ctx.rule("R8", "the assignment-target check, whose SyntaxError is what sends `cmd --opt=value` to the recovery loop, reaches every statement position of the tree: its visitor traverses every statement-holding field the interpreter's grammar has (body, orelse, finalbody, handlers, cases ...) and every container visitor it overrides goes on into the children", floor=2)
     ctx.rule("R9", "sibling phases agree on window arithmetic: wherever a column taken from one physical line is used as a position in the joined logical line (get_logical_line), the lengths of the preceding physical lines are added when the logical line spans several", floor=2)
     ctx.rule("R10", "a cheap pre-check never answers 'no break here' for a text in which the scan would find one: the pattern tried before the token scan of find_next_break matches, as a bare substring, every spelling of every token type the scan stops at (END_TOK_TYPES) - the text it sees starts at the parser's error column, so a keyword can sit at its very beginning", floor=6)
-    ctx.rule("R11", "whether a quoted word is a complete string is decided by the shared string pattern alone: every verdict of tools.check_quotes is a constant (decided by which ends carry a quote) or the match / no-match of a module-level RE_* pattern on the whole word - no second opinion computed from the text itself (endswith / count / slicing cannot tell an escaping backslash from an escaped one)", floor=3)
+    ctx.rule("R11", "whether a quoted word is a complete string is decided by the shared string pattern alone: every verdict of tools.check_quotes is a constant (decided by which ends carry a quote) or the match / no-match of a module-level RE_* pattern on the whole word - no second opinion computed from the text itself (endswith / count / slicing cannot tell an escaping backslash from an escaped one)", floor=1)
     ctx.rule("R6", "line tables indexed by the parser's line numbers are split the way the parser counts lines (\\n only)", floor=2)
     ctx.rule("R5", "every verdict of the open-triple-quote scanner comes out of its quote- and comment-aware scan (or is 'nothing open' when no marker occurs at all); the line joiners ask only the scanner", floor=4)
     ctx.rule("R4", "the line returned by tools.subproc_toks is built only from slices of the source line and the literals '![' and ']'", floor=3)
@@ -812,6 +812,13 @@ def _quote_verdict_by_pattern(ctx):
             return isinstance(e.value, bool)
         if isinstance(e, ast.UnaryOp) and isinstance(e.op, ast.Not):
             return by_pattern(e.operand, depth + 1)
+        if isinstance(e, ast.BoolOp):
+            return all(by_pattern(v, depth + 1) or is_match(v) for v in e.values)
+        if isinstance(e, ast.Call) and isinstance(e.func, ast.Attribute) and e.func.attr in ("endswith", "startswith") and unparse(e.func.value) == sp and len(e.args) == 1:
+            # which end of the whole word carries a quote character (the case split in front of the pattern)
+            a0 = e.args[0]
+            vals = [a0.value] if isinstance(a0, ast.Constant) else [x.value for x in a0.elts if isinstance(x, ast.Constant)] if isinstance(a0, ast.Tuple) else []
+            return bool(vals) and all(isinstance(v, str) and v and set(v) <= set("'\"") for v in vals)
         if isinstance(e, ast.Compare) and len(e.ops) == 1 and isinstance(e.ops[0], (ast.Is, ast.IsNot)) and const_value(e.comparators[0], 0) is None:
             return by_pattern(e.left, depth + 1) or is_match(e.left)
         if isinstance(e, ast.Name):
@@ -839,8 +846,10 @@ def _quote_verdict_by_pattern(ctx):
                 continue
             n += 1
             ctx.ob("R11", st, f"`{nm} = {short(d.value, 50)}` is a constant or the pattern's verdict", by_pattern(d.value), key="check_quotes|verdict-from-text", where=loc(d.stmt))
-    if n < 3:
-        raise AnalysisError(f"{st}: only {n} verdict definitions found")
+    if n < 1:
+        raise AnalysisError(f"{st}: no verdict definition found")
+    if not any(isinstance(c, ast.Call) and isinstance(c.func, ast.Attribute) and c.func.attr in ("match", "fullmatch") and isinstance(c.func.value, ast.Name) and c.func.value.id.startswith("RE_") for c in ast.walk(fn)):
+        raise AnalysisError(f"{st}: the shared string pattern is no longer consulted")
 
 META = {
     "technique": "static analysis: call-graph reachability from Execer.parse, loop-variant catalogue checked by CFG cycle queries (no cycle through the loop head without a progress statement), guard facts on the recursion, raise-provenance, string-provenance of the wrapper",
